@@ -176,6 +176,12 @@ def canonical(g):
                 g.add("value", 0, is_async, [], "debug", None, None, [], None, (mode, lv), None)
                 g.add("result", 0, is_async, ["big"], None, None, None, [], None, None, (mode, lv))
                 g.add("result", 1, is_async, [], "trace", None, None, ["a"], "expr", (None if mode == "Display" else mode, lv), (mode, "info" if lv else None))
+    # ... and the same with a configured target (and name): the span and each ret/err event carry it, whatever the mode
+    for is_async in (False, True):
+        for mode in (None, "Debug", "Display"):
+            g.add("value", 0, is_async, [], None, None, "tgt::ev", [], None, (mode, None), None)
+            g.add("result", 0, is_async, [], None, "named", "tgt::ev", [], None, None, (mode, None))
+            g.add("result", 1, is_async, ["b"], "debug", None, "tgt::ev", [], None, (None if mode == "Display" else mode, "trace"), (mode, "warn"))
     # every argument kind alone and all together, skipped and not
     for k in ARGS:
         g.add("value", 0, False, [k], None, None, None, [], None, None, None)
